@@ -88,6 +88,10 @@ type Scenario struct {
 	Monitors    func(w *World) []Monitor
 	MaxPoints   int
 	Bound       map[string]int // tier -> deviation bound (-1 = unbounded)
+	// LazyConns changes the default schedule: connection workers run only
+	// when nothing else (cache workers, answers, scripted actions) is
+	// enabled, i.e. clients' queues are served last.
+	LazyConns bool
 }
 
 // Violation is a property violation found in one execution.
@@ -536,13 +540,19 @@ func (w *World) Enabled() []Action {
 		nas = append(nas, na{w.actorName(a), a})
 	}
 	sort.Slice(nas, func(i, j int) bool { return nas[i].n < nas[j].n })
+	var lazy []Action
 	for _, x := range nas {
 		a := x.a
-		out = append(out, Action{"step:" + x.n, func() {
+		act := Action{"step:" + x.n, func() {
 			if !w.S.Step(a) {
 				w.Hung = true
 			}
-		}})
+		}}
+		if w.Sc.LazyConns && a.isConn {
+			lazy = append(lazy, act)
+			continue
+		}
+		out = append(out, act)
 	}
 	for i, t := range w.S.Tasks() {
 		t := t
@@ -618,6 +628,7 @@ func (w *World) Enabled() []Action {
 	for _, e := range env {
 		out = append(out, e.a)
 	}
+	out = append(out, lazy...)
 	// 5. timers
 	if !w.Sc.NoEvict && w.TQ != nil {
 		if el := w.TQ.VerifElems(); len(el) > 0 {
